@@ -13,7 +13,7 @@ import (
 )
 
 func init() {
-	register("C13", "Structural clause decided: (nil) every dispatch on c.smp.state and every dereference of c.ake is reached only in states where the field was established and not reset since (must-analysis with kills, inter-procedural); (bounds) the set of index/slice operations that the Go compiler's own prove pass cannot discharge equals a reviewed table — each entry with its reason and, where a local check is what makes it safe, the dominating comparison it needs — so a removed length test shows up as a new undischarged bounds check; (alloc) every allocation size is a constant, linear in the length of existing data, or an untrusted count with a dominating bound by the input length; (narrowing) the set of lossy integer conversions equals a reviewed table; (panic) no explicit panic or unchecked type assertion is reachable from the parsers beyond the reviewed ones; (sexp) UnreadByte only after a successful ReadByte and every reader loop consumes input on each iteration; (random) every error of the randomness helpers is tested or propagated and io.ReadFull is only called by randomInto; (random-atomic) the pairs "a state tag of one of the three state machines or a key id is written, and the function can then fail because the randomness source failed" equal a reviewed table, so a tag moved ahead of the draw it stands for is reported. Not decided: termination and memory use in general, recursion depth of the s-expression reader, time.",
+	register("C13", "Structural clause decided: (nil) every dispatch on c.smp.state and every dereference of c.ake is reached only in states where the field was established and not reset since (must-analysis with kills, inter-procedural); (bounds) the set of index/slice operations that the Go compiler's own prove pass cannot discharge equals a reviewed table — each entry with its reason and, where a local check is what makes it safe, the dominating comparison it needs — so a removed length test shows up as a new undischarged bounds check; (alloc) every allocation size is a constant, linear in the length of existing data, or an untrusted count with a dominating bound by the input length; (narrowing) the set of lossy integer conversions equals a reviewed table; (panic) no explicit panic or unchecked type assertion is reachable from the parsers beyond the reviewed ones; (sexp) UnreadByte only after a successful ReadByte and every reader loop consumes input on each iteration; (random) every error of the randomness helpers is tested or propagated and io.ReadFull is only called by randomInto; (random-atomic) the pairs (a state tag of one of the three state machines or a key id is written, and the function can then fail because the randomness source failed) equal a reviewed table, so a tag moved ahead of the draw it stands for is reported. Not decided: termination and memory use in general, recursion depth of the s-expression reader, time.",
 		func(a *An) {
 			a.nilDispatch("U.nil")
 			a.boundsTable("U.bounds")
